@@ -223,16 +223,16 @@ fn monitor(b: &Block, before: &RefLedger, parent: &Block, expiring: Option<&Bloc
     }
 }
 
-pub fn run_history(g: u64, steps: &[Step], rep: &mut Report) {
+pub fn run_history(g: u64, steps: &[Step], prune: u64, rep: &mut Report) {
     let hb = 5000u64;
-    let mut p = match Prod::new(g, hb, 0) {
+    let mut p = match Prod::new_with(g, hb, 0, false, prune) {
         Ok(p) => p,
         Err(e) => {
             rep.machinery(e);
             return;
         }
     };
-    let ctx = json!({"g": g, "steps": steps.iter().map(|s| format!("{}{:?}{}", if s.fork_before { "fork;" } else { "" }, s.act, if s.gt { "+gt" } else { "" })).collect::<Vec<_>>()});
+    let ctx = json!({"g": g, "prune_after_blocks": prune, "steps": steps.iter().map(|s| format!("{}{:?}{}", if s.fork_before { "fork;" } else { "" }, s.act, if s.gt { "+gt" } else { "" })).collect::<Vec<_>>()});
     let mut blocks: Vec<Block> = vec![decode_block(&p.chain[0])];
     for (i, s) in steps.iter().enumerate() {
         if s.fork_before {
@@ -263,7 +263,18 @@ pub fn run_history(g: u64, steps: &[Step], rep: &mut Report) {
                         let _ = p.twin.add_block_bytes(b);
                     }
                     if p.node.tip().1 != decode_block(&m2).hash {
-                        rep.outcome("fork-not-adopted");
+                        // is the branch refused on its own merits, or only because the competitor
+                        // (with its rebroadcasts) was wound and unwound first?
+                        let mut fresh = LedgerNode::new(key(8), p.cfg.clone());
+                        for b in base.iter().chain([&m, &m2]) {
+                            let _ = fresh.add_block_bytes(b);
+                        }
+                        if fresh.tip().1 == decode_block(&m2).hash {
+                            let had_atr = decode_block(&l).transactions.iter().any(|t| t.transaction_type == TransactionType::ATR);
+                            rep.violate(&format!("valid-longer-branch-refused-after-unwinding-a-competitor/{}", if had_atr { "competitor-carried-rebroadcasts" } else { "no-rebroadcasts" }), format!("step {}: a node that never saw the competitor adopts M, M2 (height {}); the node that wound and unwound the competitor stays at {}", i, h + 1, p.node.tip().0), ctx.clone());
+                        } else {
+                            rep.outcome("fork-not-adopted");
+                        }
                         return;
                     }
                     let mut chain = base;
@@ -450,7 +461,16 @@ pub fn main(tier: Tier, _replay: Option<String>) -> i32 {
         let mut r = rep.child();
         r.evaluations += 1;
         r.distinct.insert(format!("h{}", i));
-        run_history(*g, steps, &mut r);
+        run_history(*g, steps, 8, &mut r);
+        // histories with at most one deviation also on nodes that keep only the tip's transactions
+        // in memory: the expiring block is read back from disk when it is rebroadcast
+        let base_fee = [0u64, 6_000].into_iter().max_by_key(|f| steps.iter().filter(|s| matches!(&s.act, Act::Pay(x) if x == f)).count()).unwrap();
+        let deviations = steps.iter().filter(|s| s.fork_before || !matches!(&s.act, Act::Pay(f) if *f == base_fee)).count();
+        if deviations <= 1 {
+            r.evaluations += 1;
+            run_history(*g, steps, 1, &mut r);
+            r.outcome("history-also-run-with-pruned-memory");
+        }
         if i == 7 {
             r.sample(json!({"g": g, "steps": steps.iter().map(|s| format!("{:?}{}", s.act, if s.gt { "+gt" } else { "" })).collect::<Vec<_>>()}));
         }
